@@ -20,7 +20,7 @@ def run(repo, res, tier):
         "exception class), for the five bundled parser/decoder/grammar pairings, following calls into decoder "
         "and Token methods. Rules: T1 (a production that fails with a plain ValueError after consuming tokens "
         "lets the caller continue => statements silently dropped), T2 (a handler can swallow LexerError), "
-        "T5 (send into an occupied push-back slot), T8 (value-returning production can fall off its end), "
+        "T2P (a catch-all handler takes a ParseError and carries on), T5 (send into an occupied push-back slot), T8 (value-returning production can fall off its end), "
         "T9 (must-pass-through: a block production returns only after its end statement was parsed), "
         "L-YIELD (every lexer yield is inside the try that converts a thrown ValueError to LexerError). "
         "UNITS-LANG (the language of units tokens parse_units accepts, by DFA pre-images of strip/slice/partition, is "
@@ -32,6 +32,8 @@ def run(repo, res, tier):
     common.triage_aggregation_cls(repo, res, t1)
     t1 = [f for f in t1 if f in res.findings]
     t2 = parserules.add_rule(res, an, "T2")
+    t2p = parserules.add_rule(res, an, "T2P")
+    t2pkeys = {(f.function, f.anchor) for f in t2p}
     t5 = parserules.add_rule(res, an, "T5")
     t8 = parserules.add_rule(res, an, "T8")
     t9 = parserules.add_rule(res, an, "T9")
@@ -50,6 +52,8 @@ def run(repo, res, tier):
         if can:
             res.oblige("T2", f"{fn} except {h}", ok=(fn, f"except {h}") not in t2keys,
                        detail="caught: " + ",".join(sorted(caught)), nontrivial="LexerError" in caught or True)
+        if any(x in h for x in ("Exception", "<bare>", "BaseException")):
+            res.oblige("T2P", f"{fn} except {h}: a ParseError caught here is not carried on from", ok=(fn, f"except {h}") not in t2pkeys)
         if "ValueError" in caught:
             res.oblige("T1", f"{fn} except {h}", ok=f"{fn} except {h}" not in t1handlers,
                        detail="plain ValueError caught here; consumed tokens must have been sent back")
@@ -77,3 +81,6 @@ def run(repo, res, tier):
     hookrules.rule_h3(repo, res)
     # the units token the parser accepts: exactly <delimiter> text-without-delimiters <delimiter>, handed on unshortened
     langrules.rule_units_lang(repo, res, langrules.analyse(repo))
+    # text after a comment delimiter of another kind inside a comment must not be swallowed (or released) silently
+    from .. import lexsim
+    lexsim.rule_comment_kind(repo, res)
